@@ -3,7 +3,7 @@ import common, sim, proto
 from common import run_model, exn_name
 
 RULE = ('fault origins {early listener, ordinary listener, built-in reaction (login disconnect), decoder (malformed frame), exit '
-        'callback, listener on the play disconnect packet (after the connection was told to disconnect), listener that disconnects and then fails} x handler chains of 0..4 handlers (random exception-type filters from a class hierarchy, early registration, '
+        'callback, listener on the play disconnect packet (after the connection was told to disconnect), listener that disconnects and then fails, outgoing listener failing while the reaction to a server disconnect flushes the queue} x handler chains of 0..4 handlers (random exception-type filters from a class hierarchy, early registration, '
         'behaviour return / raise a new exception / reconnect) x final handler in {None, False, returning function, raising function}, '
         'through the simulated transport with the real reactors: handler call log with the exception each received, '
         'connection.exception, whether the thread re-raised, socket closure, the thread slot, and a subsequent connect() are compared '
@@ -38,7 +38,7 @@ def run(chk):
     rng, th = chk.rng, chk.tier == 'thorough'
     reqs, metas = [], []
     for cfg in range(2500 if th else 400):
-        origin = rng.choice(['early', 'late', 'reaction', 'decoder', 'exit', 'after-disconnect', 'self-disconnect'])
+        origin = rng.choice(['early', 'late', 'reaction', 'decoder', 'exit', 'after-disconnect', 'self-disconnect', 'flush'])
         pv = rng.choice([47, 340, 578, 757])
         ids = proto.Ids(pv)
         # the exception objects of this run get numbers; number 100 is the original fault
@@ -57,6 +57,11 @@ def run(chk):
         elif origin == 'decoder':
             frames.append(proto.frame(ids.keep_alive, b''))               # a keep-alive without its id: the decoder raises
         elif origin in ('exit', 'after-disconnect'):
+            frames.append(proto.frame(ids.play_disconnect, proto.string('{"text":"bye"}')))
+        elif origin == 'flush':
+            # the answer to the keep-alive is still queued when the server's disconnect packet makes the client flush and close;
+            # an outgoing listener fails during that flush (disconnect() has already marked the connection as not connected)
+            frames.append(proto.frame(ids.keep_alive, ids.b_keep_alive(7)))
             frames.append(proto.frame(ids.play_disconnect, proto.string('{"text":"bye"}')))
         else:
             frames.append(proto.frame(ids.keep_alive, ids.b_keep_alive(7)))
@@ -94,6 +99,14 @@ def run(chk):
                 # 'after-disconnect': an ordinary listener on the play disconnect packet runs after the built-in reaction has
                 # already told the connection to disconnect; 'self-disconnect': the listener disconnects, then fails
                 conn.register_packet_listener(boom, cb.play.DisconnectPacket if origin == 'after-disconnect' else cb.play.KeepAlivePacket, early=(origin == 'early'))
+            if origin == 'flush':
+                from minecraft.networking.packets import serverbound as sb
+
+                def boom_out(p):
+                    e = fault_cls('outgoing listener')
+                    excs[100] = e
+                    raise e
+                conn.register_packet_listener(boom_out, sb.play.KeepAlivePacket, outgoing=True, early=rng.random() < 0.5)
             handlers = []
             order = []
             for i in range(rng.randrange(0, 5)):
